@@ -560,4 +560,5 @@ def run(an: Analysis, rep):
     from . import json_fold as _jf
     rep.run(_jf.fold_rule, an, shj)
     rep.run(_jf.encode_fold_rule, an, shj)
+    rep.run(_jf.constants_fold_rule, an, shj)
     rep.stats.update(an.stats([it]))
